@@ -18,7 +18,7 @@ RULE = (
     "0..5 x seeds 0..5 x extra_coords); grid_coordinates nodes inside the region; project_region under affine, flipping, monotone "
     "and non-monotone maps; maxabs over tuples of 1..3 vectors with NaNs; every invalid region through every public entry point. "
     "Non-trivial: not an expected-refusal case; distinct = distinct canonical case."
-    " Added axes: NaN coordinates, ndarray regions, every sub-lattice as its own inside() call, far / tiny / float32 forms, non-dyadic grids with many nodes, elongated regions (1e4 ... 1e6 : 1) and far regions for project_region, almost-meshgrid 2-D arrays for get_region, maxabs on 2-D / 3-D arrays."
+    " Added axes: NaN coordinates, ndarray regions, every sub-lattice as its own inside() call, far / tiny / float32 forms, non-dyadic grids with many nodes, elongated regions (1e4 ... 1e6 : 1) and far regions for project_region, almost-meshgrid 2-D arrays for get_region, maxabs on 2-D / 3-D arrays, maxabs on signed / unsigned integer arrays holding the extreme values of their type."
 )
 ASSUMPTIONS = ["lattices are dyadic so the closed-box predicate is decidable exactly",
                "maxabs(nan=True) on input without any finite value is not compared (result undefined)"]
@@ -109,6 +109,16 @@ def cases(tier, seed):
             for shp in ([2, 2], [4, 1], [1, 4], [1, 2, 2]):
                 yield dict(kind="maxabs", arrays=[v], nan=nan, shape=shp)
             yield dict(kind="maxabs", arrays=[v[:2], v[2:]], nan=nan, shape=[2, 1])
+    # integer dtypes incl. small and unsigned ones, with the extreme values of each type (round 8, seed C13-16: -min of an unsigned array;
+    # defect D11: the absolute value of the most negative value of a signed type)
+    for dt, vals in (("uint8", [3, 120, 200, 0, 255]), ("uint16", [1, 65535, 7]), ("int8", [-128, 5, 127, -1]), ("int16", [-32768, 100, 32767, -3]),
+                     ("int32", [-2147483648, 7, 2147483647]), ("int64", [-4, 9, 2 ** 40, -(2 ** 41)])):
+        for k_ in (1, 2, 3, len(vals)):
+            for sub in itertools.combinations(vals, k_):
+                for nan in (True, False):
+                    yield dict(kind="maxabs", arrays=[list(sub)], nan=nan, dtype=dt)
+                    yield dict(kind="maxabs", arrays=[list(sub), [vals[0], vals[-1]]], nan=nan, dtype=dt)
+                    yield dict(kind="maxabs", arrays=[list(sub), [1.5, -2.5]], nan=nan, dtype=dt, second_float=True)
     small = [list(v) for v in _vecs(MV, 2)]
     second = singles if tier == "thorough" else small
     for a in singles:
@@ -396,6 +406,8 @@ def run(case, rec):
         return
     if kind == "maxabs":
         arrays = [np.array(a) for a in case["arrays"]]
+        if case.get("dtype"):
+            arrays = [np.array(a, dtype=(float if (case.get("second_float") and i_ == 1) else case["dtype"])) for i_, a in enumerate(case["arrays"])]
         if case.get("shape"):
             arrays = [a.reshape(case["shape"]) for a in arrays]
         nan = case["nan"]
